@@ -712,6 +712,10 @@ class Model(IOSpecOperation, EditableParent):
 
         gc_status = gc.isenabled()
         gc.disable()
+        # Pasting a value must not recalculate the elements
+        # the following steps calculate
+        recalc = self._impl.system._recalc_dependents
+        self._impl.system._recalc_dependents = False
         try:
             for step in actions:
                 action, nodes = step
@@ -740,6 +744,7 @@ class Model(IOSpecOperation, EditableParent):
                 else:
                     raise RuntimeError("must not happen")
         finally:
+            self._impl.system._recalc_dependents = recalc
             if gc_status:
                 gc.enable()
 
